@@ -24,11 +24,17 @@ Proof. eexists. eexists. split; vm_compute; reflexivity. Qed.
 Definition bad_ops : list op :=
   [OpSubmit None [4; 5; 6] (Some 2) rq1 0%Z CUnl false None].
 
-Lemma bad_ops_phantom : exists s outs j, run (init_sys 0 2) bad_ops = Ok (s, outs)
-  /\ find_job (h_jobs (s_hq s)) 1 = Some j
-  /\ jt_find (j_tasks j) 6 = Some JW
-  /\ ~ In (1, 6) (map t_id (c_tasks (s_core s))).
+(** Finding F26 (fixed): [handle_submit_array] itself accepts the request and leaves a phantom task
+    (the job shows three waiting tasks, the scheduler knows two) - this is what the real server did;
+    since the repair the request is refused before ([Sys.bad_submit_lengths]), state untouched. *)
+Lemma bad_ops_phantom :
+  (exists s outs j, handle_submit_array (init_sys 0 2, []) None [4; 5; 6] (Some 2) rq1 0%Z CUnl false None = Ok (s, outs)
+     /\ find_job (h_jobs (s_hq s)) 1 = Some j
+     /\ jt_find (j_tasks j) 6 = Some JW
+     /\ ~ In (1, 6) (map t_id (c_tasks (s_core s))))
+  /\ run (init_sys 0 2) bad_ops = Ok (init_sys 0 2, [OResp (RSubmitErr 6 0)]).
 Proof.
+  split; [|vm_compute; reflexivity].
   eexists. eexists. eexists. split; [vm_compute; reflexivity|]. split; [vm_compute; reflexivity|]. split; [vm_compute; reflexivity|].
   vm_compute. intros [H|[H|[]]]; discriminate.
 Qed.
